@@ -319,3 +319,89 @@ class ORemoveFrom(_Multiplicity):
 
     def covers(self, cx, ov, info):
         return [("unregisters", lambda k, p, s: k == "return"), ("not-found", lambda k, p, s: k == "raise")]
+
+
+# ------------------------------------------------------------------------------------------------------------------
+@register
+class NotifierEqualsBody(Contract):
+    """TraitEventNotifier.equals(other) -- the BODY behind EqualsSummary.  Two notifiers stand for the same registration exactly
+    when they are of the same class, their handlers compare equal, their dispatchers compare equal, and their targets are THE
+    SAME OBJECT (identity of what the weak references currently give: two distinct observer objects that merely compare equal
+    -- a value-based __eq__ -- are two registrations, each counted on its own).  `==` between arbitrary objects is an arbitrary
+    reflexive symmetric relation here, so an implementation that identifies the target by `==` (on the objects or on the weak
+    references) does not meet the clause."""
+    path = PATH
+    qualname = "TraitEventNotifier.equals"
+    properties = ("C09",)
+    class_paths = (PATH,)
+    overloads = ("another-notifier", "itself", "not-a-notifier")
+    assumptions = ("A-PY", "A-EQ: == on handlers / dispatchers / arbitrary objects is reflexive and symmetric and does not raise",
+                   "weak references are called to obtain their referent (None once collected)")
+    undecided_probe = dict(harness="observe", family="equal_targets")
+
+    @property
+    def cid(self):
+        return "%s:%s<body>" % (self.path, self.qualname)
+
+    def configure(self, cx, I, ov):
+        NONE_T = cx.const("None").t
+        self.h1, self.h2, self.t1, self.t2, self.d1, self.d2 = z3.Consts("my_handler other_handler my_target other_target my_dispatcher other_dispatcher", Val)
+        self.alive1, self.alive2 = z3.Bools("my_target_alive other_target_alive")
+        eqv = z3.Function("objects_compare_equal", Val, Val, z3.BoolSort())
+        self.eqv = eqv
+        x_, y_ = z3.Consts("x!oe y!oe", Val)
+        cx.axioms += [z3.ForAll([x_], eqv(x_, x_)), z3.ForAll([x_, y_], eqv(x_, y_) == eqv(y_, x_))]
+        cx.val_eq = lambda a, b: eqv(a, b)
+        refs = {"wr-h1": lambda: self.h1, "wr-h2": lambda: self.h2}
+
+        def call_hook(I2, fv, args, kwargs, st, k):
+            if isinstance(fv, VConst) and not args:
+                if fv.name in refs:
+                    return k(VElem(refs[fv.name]()), st)
+                if fv.name == "wr-t1":
+                    return I2.cx.branch(st, self.alive1, lambda s: k(VElem(self.t1), s), lambda s: k(NONE, s))
+                if fv.name == "wr-t2":
+                    return I2.cx.branch(st, self.alive2, lambda s: k(VElem(self.t2), s), lambda s: k(NONE, s))
+            return None
+        cx.call_hook = call_hook
+        other_type = VElem(z3.Const("some_other_type", Val))
+
+        def type_(I2, a, kw, st, k):
+            v = a[0]
+            if isinstance(v, VRef) and st.heap[v.oid].cls == "TraitEventNotifier":
+                return k(cx.const("TraitEventNotifier-class"), st)
+            return k(other_type, st)
+        cx.module_globals["type"] = VFunc("opaque", name="type", apply=type_)
+
+    def setup(self, cx, I, ov):
+        NONE_T = cx.const("None").t
+        st = St().assume(self.t1 != NONE_T, self.t2 != NONE_T, z3.Const("some_other_type", Val) != cx.const("TraitEventNotifier-class").t,
+                         # the weak-reference objects themselves are objects like any other: how THEY compare says nothing
+                         # about the identity of their referents beyond a reference comparing equal to itself
+                         cx.const("wr-t1").t != cx.const("wr-t2").t)
+        me, other = VRef(cx.new_oid()), VRef(cx.new_oid())
+        st = st.put(me.oid, HObj("obj", None, "TraitEventNotifier", {"handler": cx.const("wr-h1"), "target": cx.const("wr-t1"), "dispatcher": VElem(self.d1)}))
+        st = st.put(other.oid, HObj("obj", None, "TraitEventNotifier", {"handler": cx.const("wr-h2"), "target": cx.const("wr-t2"), "dispatcher": VElem(self.d2)}))
+        arg = {"another-notifier": other, "itself": me, "not-a-notifier": VElem(z3.Const("something_else", Val))}[ov]
+        st = st.assume(z3.Const("something_else", Val) != cx.ref_val(me))
+        return st, [me, arg], {}, dict(witness=dict(same_target=self.t1 == self.t2, alive1=self.alive1, alive2=self.alive2),
+                                        concretise=lambda m: dict(harness="observe", family="equal_targets"))
+
+    def post(self, cx, I, ov, info, kind, payload, st):
+        if kind == "raise":
+            return [("exc-free", z3.BoolVal(False), dict(exception="%s %r" % (payload.cname or payload.sym, payload.origin)))]
+        r = payload.t if isinstance(payload, VBool) else None
+        if r is None:
+            return [("post:returns-a-boolean", z3.BoolVal(False))]
+        if ov == "itself":
+            return [("post:a-notifier-equals-itself", r)]
+        if ov == "not-a-notifier":
+            return [("post:an-object-of-another-class-is-never-equivalent", z3.Not(r))]
+        NONE_T = cx.const("None").t
+        ta = z3.If(self.alive1, self.t1, NONE_T)
+        tb = z3.If(self.alive2, self.t2, NONE_T)
+        return [("post:equivalent-iff-equal-handlers-equal-dispatchers-and-the-IDENTICAL-target-object",
+                 r == z3.And(self.eqv(self.h1, self.h2), ta == tb, self.eqv(self.d1, self.d2)))]
+
+    def covers(self, cx, ov, info):
+        return [("answers", lambda k, p, s: k == "return")]
